@@ -20,7 +20,10 @@
 (*      strto    : with s the String the implementation's own toString()   *)
 (*        produced, out = ok(To(T, s)) (so x.toString().toT() = x for x of *)
 (*        type T whenever toString() itself is acceptable, which is judged *)
-(*        on its own record);                                              *)
+(*        on its own record); for x ALREADY of type T the clause is hard:  *)
+(*        out = ok(<<x>>) by value, also where FPConvert!Amb would leave   *)
+(*        the intermediate string open as an arbitrary input, and          *)
+(*      strconv (x of type T): x.toString().convertsToT() = true;          *)
 (*      an unconvertible item gives ok(<<>>), never an error, never a      *)
 (*      value of another type; panics and timeouts are never accepted.     *)
 (* Where FPConvert!Amb holds both readings are accepted.                   *)
@@ -31,12 +34,13 @@ Obs == ndJsonDeserialize(ObsFile)
 N == Len(Obs)
 W == 16
 
-FnName(p, T) == IF p = "conv" THEN "convertsTo" \o T ELSE "to" \o T
+FnName(p, T) == IF p \in {"conv", "strconv"} THEN "convertsTo" \o T ELSE "to" \o T
 
 (******************************* well-formedness ***************************)
 WellFormed(o) ==
   /\ o.T \in Targets
-  /\ o.prog \in {"to", "conv", "toto", "strto"}
+  /\ o.prog \in {"to", "conv", "toto", "strto", "strconv"}
+  /\ (o.prog = "strconv" => o.x.t = TagOf(o.T))
   /\ (~o.alias => o.sfx = Suffix(o.prog, o.T))
   /\ o.sk \in {"lit", "env", "el"}
   /\ (o.sk = "lit" => o.ra = "" /\ o.x.t # "cx" /\ HasLit(o.x) /\ o.rc = LitOf(o.x))
@@ -72,8 +76,11 @@ AcceptConv(T, y, r) ==
 (* is sout usable as the input of the second half of x.toString().toT() ? *)
 SoutUsable(o) == o.sout.k = "ok" /\ Len(o.sout.items) <= 1 /\ \A j \in 1..Len(o.sout.items) : o.sout.items[j].t = "s" /\ WellTyped("String", o.sout.items[j])
 
+(* x is already of type T and its own toString() produced one String: the round trip is owed *)
+SelfTrip(o) == o.x.t = TagOf(o.T) /\ SoutUsable(o) /\ Len(o.sout.items) = 1
+
 (* the item the last conversion of the program is applied to *)
-Effective(o) == IF o.prog = "strto" /\ SoutUsable(o) /\ Len(o.sout.items) = 1 THEN o.sout.items[1] ELSE o.x
+Effective(o) == IF o.prog \in {"strto", "strconv"} /\ SoutUsable(o) /\ Len(o.sout.items) = 1 THEN o.sout.items[1] ELSE o.x
 
 Accept(o) ==
   /\ o.out.k = "ok"
@@ -82,7 +89,16 @@ Accept(o) ==
        [] o.prog = "toto"  -> AcceptTo(o.T, o.x, o.out.items)
        [] o.prog = "strto" -> IF ~SoutUsable(o) THEN TRUE          \* toString() itself is wrong: judged on its own record
                               ELSE IF Len(o.sout.items) = 0 THEN Len(o.out.items) = 0
+                              ELSE IF SelfTrip(o)
+                              THEN \* the hard clause: for x of type T, x.toString().toT() = x - whatever string
+                                   \* the implementation chose, and whether or not FPConvert!Amb leaves that
+                                   \* string open when it is given as an arbitrary input
+                                   /\ Len(o.out.items) = 1 /\ o.out.items[1].t = TagOf(o.T)
+                                   /\ WellTyped(o.T, o.out.items[1]) /\ ValEq(o.out.items[1], o.x)
                               ELSE AcceptTo(o.T, o.sout.items[1], o.out.items)
+       [] o.prog = "strconv" -> IF ~SoutUsable(o) THEN TRUE
+                                ELSE IF Len(o.sout.items) = 0 THEN Len(o.out.items) = 0
+                                ELSE Len(o.out.items) = 1 /\ o.out.items[1].t = "b" /\ o.out.items[1].b
 
 (***************************** classification ******************************)
 TagName(it) == IF it.t = "el" THEN "el" ELSE it.t
@@ -90,7 +106,8 @@ TagName(it) == IF it.t = "el" THEN "el" ELSE it.t
 WantKind(o) ==
   LET y == Effective(o)
   IN IF o.prog = "conv" THEN "bool:" \o (IF Convertible(o.T, o.x) THEN "true" ELSE "false")
-     ELSE IF o.prog = "strto" /\ SoutUsable(o) /\ Len(o.sout.items) = 0 THEN "ok0"
+     ELSE IF o.prog \in {"strto", "strconv"} /\ SoutUsable(o) /\ Len(o.sout.items) = 0 THEN "ok0"
+     ELSE IF o.prog \in {"strto", "strconv"} /\ SelfTrip(o) THEN "self"
      ELSE IF o.T = "String" /\ y.t \in SystemTags /\ y.t # "s" THEN "roundtrip"
      ELSE IF Amb(o.T, y) THEN "amb"
      ELSE IF To(o.T, y) = <<>> THEN "ok0" ELSE "ok1:" \o TagOf(o.T)
@@ -101,8 +118,8 @@ GotKind(o) ==
   ELSE IF Len(o.out.items) = 0 THEN "ok0"
   ELSE IF Len(o.out.items) > 1 THEN "okN"
   ELSE LET it == o.out.items[1]
-       IN IF o.prog = "conv" /\ it.t = "b" THEN "bool:" \o (IF it.b THEN "true" ELSE "false")
-          ELSE IF it.t = TagOf(o.T) /\ o.prog # "conv" THEN "ok1:" \o it.t \o ":wrong-value"
+       IN IF o.prog \in {"conv", "strconv"} /\ it.t = "b" THEN "bool:" \o (IF it.b THEN "true" ELSE "false")
+          ELSE IF it.t = TagOf(o.T) /\ o.prog \notin {"conv", "strconv"} THEN "ok1:" \o it.t \o ":wrong-value"
           ELSE "ok1:" \o TagName(it)
 
 SrcClass(o) == IF o.sk = "el" THEN "el:" \o o.fk ELSE o.sk
@@ -113,6 +130,7 @@ SrcClass(o) == IF o.sk = "el" THEN "el:" \o o.fk ELSE o.sk
 BehavesAsToInteger(o) ==
   LET y == Effective(o)
   IN /\ o.T = "Quantity" /\ o.prog \in {"to", "toto", "strto"}
+     /\ ~(o.out.k = "ok" /\ Len(o.out.items) = 0 /\ To("Quantity", y) = <<>>)   \* empty where Quantity's own table says empty: no evidence
      /\ \/ o.out.k = "ok" /\ CollValEq(o.out.items, ToInteger(y))
         \/ o.out.k = "err" /\ ToInteger(y) = <<>> /\ y.t \in {"s", "cx"}
 
@@ -121,11 +139,13 @@ Sig(o) ==
   ELSE IF o.out.k = "cerr" THEN "uncallable|" \o FnName(o.prog, o.T)     \* the receiver alone compiles, the call does not
   ELSE IF BehavesAsToInteger(o) THEN "misbound|toQuantity|behaves-as-toInteger"
   ELSE "conv|" \o o.prog \o (IF o.alias THEN "#alias" ELSE "") \o "|" \o o.T \o "|" \o SrcClass(o) \o "|"
-       \o (IF o.prog = "strto" THEN XClass(o.x) \o ">" ELSE "") \o XClass(Effective(o))
+       \o (IF o.prog \in {"strto", "strconv"} THEN XClass(o.x) \o ">" ELSE "") \o XClass(Effective(o))
        \o "|want-" \o WantKind(o) \o "|got-" \o GotKind(o)
 
 Want(o) ==
   IF o.prog = "conv" THEN Ok(<<B(Convertible(o.T, o.x))>>)
+  ELSE IF o.prog = "strconv" THEN Ok(<<B(TRUE)>>)
+  ELSE IF o.prog = "strto" /\ SelfTrip(o) THEN Ok(<<o.x>>)
   ELSE Ok(To(o.T, Effective(o)))
 
 Verdict(o) ==
